@@ -205,6 +205,12 @@ def check(fx, rep, tier):
                 f"when two `{V}` types meet, their `{f}` components are not unified (no Equality(left.{f}, right.{f}) is emitted): variables declared equal through a {V} resolve to different types",
                 sample={"rule": "R14.3", "constructor": V, "field": f, "equality_emitted": bool(found)},
             )
+    # path-sensitive form of the same clause (shared with C16 R16.1 diagonal): an operand answered as it stands needs every
+    # component compared equal or unified on *that* path (an early return in front of the equalities skips them)
+    from .. import core
+    from .c16 import check_diagonal
+
+    check_diagonal(mm, core.Retag(rep, "R14.3"))
     rep.floor("R14.3", n_ctor, 3, "constructors with type-variable components (dynamic array, fixed array, mapping)")
 
     # ---------------------------------------------------------------- R14.4
